@@ -223,7 +223,7 @@ def handle (line : Json) : Json :=
       let specImpl := match hex? impl "url" with
         | none => false
         | some u => (if u == url then specM else specOf u) &&
-            (clash || (hex? impl "unraveled" == some msg &&
+            (clash || (typ == sSAMLart && msg.isEmpty) || (hex? impl "unraveled" == some msg &&
               hex? impl "relay" == (if rs.isEmpty then none else some rs)))
       let path := "redirect/" ++ (if typ == sSAMLart then "art" else "saml") ++ (if rs.isEmpty then "" else "+relay") ++
         (if loc.contains 35 then "/fragment" else if !loc.contains 63 then "/no-query"
@@ -238,11 +238,10 @@ def handle (line : Json) : Json :=
     | some url =>
       let ps := parseQsl (queryOf url)
       let model := Json.mkObj [("url", jhex url), ("params", pairsToJson ps)]
-      let args := withRelay (sSAMLart, art) rs
-      let specM := specUrl loc args url
+      let specM := specArtifactUrl art loc rs url
       let specImpl := match hex? impl "url" with
         | none => false
-        | some u => if u == url then specM else specUrl loc args u
+        | some u => if u == url then specM else specArtifactUrl art loc rs u
       let path := "arturl" ++ (if rs.isEmpty then "" else "+relay") ++
         (if loc.contains 35 then "/fragment" else if !loc.contains 63 then "/no-query"
          else if locQueryTruthy loc then "/query" else "/empty-query")
@@ -275,6 +274,22 @@ def handle (line : Json) : Json :=
       res model ("soap/" ++ (if (obj? c "as_object").isSome then "object" else declPath) ++
           (if hdrs.isEmpty then "" else "+headers") ++ (match out with | .elem _ => "/ok" | .empty => "/empty" | .refused => "/wrong-tag"))
         (specSoapTree tagOf expected t env out) specImpl
+  | "soap_unwrap" =>
+    let env := parseEnv ((obj? c "env").getD Json.null)
+    let tagTable := (arrD c "tags").filterMap fun r =>
+      match r with
+      | .arr a => match a.toList with
+        | [.str e, .str t] => some (e, t)
+        | _ => none
+      | _ => none
+    let tagOf : String → String := fun e => ((tagTable.find? (fun r => r.1 == e)).map (·.2)).getD ""
+    let out := soapUnwrapTree tagOf (strList c "expected") env
+    res (Json.mkObj [("out", unwToJson out)])
+      ("soap_unwrap/" ++ (if !env.tagOk then "wrong-root" else if env.parts.isEmpty then "no-parts"
+        else match firstBody env.parts with
+          | none => "no-body"
+          | some [_] => (match out with | .elem _ => "ok" | _ => "wrong-tag")
+          | some _ => "children!=1")) true true
   | "artifact" =>
     let eid := text c "entity_id"
     let handle := (hex? c "handle").getD []
